@@ -985,6 +985,65 @@ def rule_r19(ctx):
         raise AnalysisBroken("only %d buffer-size option handlers found in the protocols" % n)
 
 
+# ---------------------------------------------------------------------------
+# R20: a saved ring is walked with its own saved extent
+
+
+def rule_r20(ctx):
+    r = ctx.rule("C18.R20", "T9", "a saved ring is walked with its own saved extent: where a function keeps the old storage of a ring in a "
+                 "local (oldq = q->msgs) while it installs a new one, the local cursor that indexes that saved array is wrapped "
+                 "by comparison with the local that saved the old extent (oldalloc = q->alloc, taken before the new extent is "
+                 "stored) -- compared with the new extent, a queue whose content wraps around the end of the old ring is copied "
+                 "from beyond the old array, and the messages at its start are left behind", floor=1)
+    r.own_opinion = True
+    prog = ctx.prog
+    n = 0
+    for f in prog.fns_in("core/msgqueue.c", "core/lmq.c"):
+        if f.cfg_failed:
+            continue
+        saved_arr = {}      # local -> storage field
+        saved_ext = {}      # local -> extent field
+        for t in f.assigns():
+            l, rhs = t.node["lhs"], f.expand(t.node["rhs"])
+            if l.get("k") == "var" and rhs is not None and rhs.get("k") == "mem":
+                if rhs["f"] in ("mq_msgs", "lmq_msgs"):
+                    saved_arr[l["n"]] = rhs["f"]
+                if rhs["f"] in ("mq_alloc", "lmq_alloc"):
+                    saved_ext[l["n"]] = rhs["f"]
+        if not saved_arr or not saved_ext:
+            continue
+        # cursors that index a saved array
+        cursors = set()
+        for t in f.sites():
+            for m in walk(f.expand(t.node)):
+                if m.get("k") == "idx" and m["b"].get("k") == "var" and m["b"]["n"] in saved_arr:
+                    for x in walk(m["i"]):
+                        if x.get("k") == "var":
+                            cursors.add(x["n"])
+        for cur in sorted(cursors):
+            for b in f.blocks.values():
+                c = f.cond(b.id) if b.term and len(b.succs) == 2 else None
+                if c is None or c.get("k") != "bin" or c["op"] not in ("==", ">=", "!=", "<"):
+                    continue
+                l, rr = c["lhs"], c["rhs"]
+                if rr.get("k") == "var" and rr["n"] == cur:
+                    l, rr = rr, l
+                if not (l.get("k") == "var" and l["n"] == cur):
+                    continue
+                n += 1
+                while rr is not None and rr.get("k") == "cast":
+                    rr = rr["e"]
+                if rr is not None and rr.get("k") == "var" and rr["n"] in saved_ext:
+                    r.ob(f, "cursor %s of the saved ring wraps at %s" % (cur, rr["n"]))
+                else:
+                    ctx.fail(r, f, "saved ring walked with another extent", f.line_of(b.id, max(len(b.elems) - 1, 0)),
+                             "%s wraps %s, the cursor into the saved storage, by comparison with %s instead of the extent saved "
+                             "with it (%s): when the two differ the copy runs off the old array or stops short of its end"
+                             % (f.name, cur, show(rr) if rr else "?", ", ".join(sorted(saved_ext))))
+    if n < 1:
+        raise AnalysisBroken("no walk over a saved ring found (nni_msgq_resize had one)")
+
+
 def run(ctx):
     ctx.guard(rule_r1)
     ctx.guard(rule_r2)
@@ -1002,6 +1061,7 @@ def run(ctx):
     ctx.guard(rule_r17)
     ctx.guard(rule_r18)
     ctx.guard(rule_r19)
+    ctx.guard(rule_r20)
     from . import c08
     ctx.guard(c08.rule_r6)        # the pair sockets' receive buffer stays first-in first-out
     for rr in ctx.rules:
